@@ -55,7 +55,12 @@ HISTS = [('run_model',), ('run_driver',), ('run_driver', 'record'), ('run_model'
          ('run_model', 'record'), ('run_driver', 'run_driver'),
          # a second run whose coordinates are made unique by a case prefix: the per-source and
          # per-case queries are well defined across runs
-         ('run_driver', 'run_driver_p2'), ('run_model', 'run_driver_p2'), ('run_driver', 'run_model_p2')]
+         ('run_driver', 'run_driver_p2'), ('run_model', 'run_driver_p2'), ('run_driver', 'run_model_p2'),
+         # the driver's / problem's recording options are changed between two runs (no new setup):
+         # each case must follow the options in force when it was recorded
+         ('run_driver', 'reopt', 'run_driver_p2'), ('run_model', 'reopt', 'run_driver_p2'),
+         # (the options are read in final_setup, so a problem case needs a run after the change)
+         ('run_driver', 'reopt', 'run_driver_p2', 'record')]
 # patterns that tell the recording system's promoted names from absolute names
 SYS_PATTERNS = PATTERNS + [(['c2.y'], []), (['*'], ['c2.y']), (['G.c2.y', 'y'], []), (['*'], ['G.*'])]
 FLAGS = {
@@ -123,10 +128,13 @@ def cases(tier, seed):
                     i += 1
                     if not any(h.startswith('run_driver') for h in hist) and drv != 'run_once':
                         continue
+                    if 'reopt' in hist and not ('driver' in sub or 'problem' in sub):
+                        continue
                     if drv == 'doe12' and not ('driver' in sub and len(sub) >= 2 and
                                                hist == ('run_driver',)):
                         continue        # >= 11 iterations: only needed for coordinate queries
-                    if tier == 'quick' and len(sub) == 2 and (i % 3) and drv != 'doe12':
+                    if tier == 'quick' and len(sub) == 2 and (i % 3) and drv != 'doe12' \
+                            and 'reopt' not in hist:
                         continue
                     # option deviations: one pattern pair per scenario (cycled), flags: default,
                     # each single flip (cycled over scenarios) and one double flip
@@ -138,6 +146,10 @@ def cases(tier, seed):
                     out.append({'model': mname, 'attach': list(sub), 'driver': drv,
                                 'hist': list(hist), 'pattern': [list(pat[0]), list(pat[1])],
                                 'flips': flips, 'palette': seed % 3})
+                    if 'reopt' in hist:
+                        pat2 = PATTERNS[(i + 3) % len(PATTERNS)]
+                        out[-1]['pattern2'] = [list(pat2[0]), list(pat2[1])]
+                        out[-1]['flip2'] = FLAGS['driver'][(i // 2) % len(FLAGS['driver'])]
     # full product on the system / solver points: every record_* flag assignment x every pattern pair
     for mname in ('ff', 'cyc'):
         for pt in ('root', 'group', 'comp', 'solver'):
@@ -162,6 +174,8 @@ def _shadow_class():
             super().__init__(record_viewer_data=False)
             self.events = []
             self.model = None
+            self.phase = 0
+            self.phase_of = {}
 
         def _snap(self, scaled_state=True):
             # physical values of every variable, whatever part of the vectors happens to be in the
@@ -186,9 +200,11 @@ def _shadow_class():
             return self._iteration_coordinate
 
         def record_iteration_driver(self, recording_requester, data, metadata):
+            self.phase_of[self._coord(metadata)] = self.phase
             self.events.append(('driver', 'driver', self._coord(metadata), self._snap(False)))
 
         def record_iteration_problem(self, recording_requester, data, metadata):
+            self.phase_of[metadata['name']] = self.phase
             self.events.append(('problem', 'problem', metadata['name'], self._snap(False)))
 
         def record_iteration_system(self, recording_requester, data, metadata):
@@ -291,6 +307,7 @@ def run_scenario(sc, keep_prob=False):
     tag = 'c%d_%d' % (os.getpid(), abs(hash(repr(sc))) % 10 ** 8)
     fname = '%s.sql' % tag
     opts = {}
+    opts2 = {}
     buf = io.StringIO()
 
     def before(prob, groups, insts):
@@ -333,13 +350,26 @@ def run_scenario(sc, keep_prob=False):
                 prob.run_driver(case_prefix='second')
             elif op == 'run_model_p2':
                 prob.run_model(case_prefix='second')
+            elif op == 'reopt':
+                shadow.phase = 1
+                for pt in sc['attach']:
+                    if pt in ('driver', 'problem'):
+                        o = prob if pt == 'problem' else prob.driver
+                        cur = dict(opts[pt])
+                        cur['includes'] = list(sc['pattern2'][0])
+                        cur['excludes'] = list(sc['pattern2'][1])
+                        cur[sc['flip2']] = not cur[sc['flip2']]
+                        for k, v in cur.items():
+                            o.recording_options[k] = v
+                        opts2[pt] = cur
             else:
                 prob.record('rec_%d' % len(shadow.events))
         prob.cleanup()
     files = glob.glob(os.path.join('*_out', fname)) + glob.glob(fname)
     reader = om.CaseReader(files[-1]) if files else None
     return {'events': shadow.events, 'reader': reader, 'prob': prob if keep_prob else None,
-            'opts': opts, 'spec': spec, 'file': files[-1] if files else None, 'paths': paths}
+            'opts': opts, 'spec': spec, 'file': files[-1] if files else None, 'paths': paths,
+            'opts2': opts2, 'phase_of': shadow.phase_of}
 
 
 def _match(name, incl, excl):
@@ -498,6 +528,8 @@ def check_case(sc):
             V('unknown_source', 'case %s from source %s' % (cname, src))
             continue
         o = opts[pt]
+        if R['phase_of'].get(coord, 0) == 1 and pt in R['opts2']:
+            o = R['opts2'][pt]
         try:
             case = reader.get_case(cname)
         except Exception as exc:
